@@ -454,6 +454,7 @@ func genC17Base64(c *Ctx, g *c17Gen) {
 		c.Run("C17.b64_encode", [][]byte{B("0"), b}, "C17.b64_encode", "", desc)
 		c.Run("C17.b64_encode", [][]byte{B("1"), b}, "C17.b64_encode", "", desc)
 		c.Run("C17.b64_roundtrip", [][]byte{b}, "C17.b64_roundtrip", "C17.prop.b64_roundtrip", desc)
+		c.Run("C17.b64_sequence", [][]byte{b}, "C17.b64_roundtrip", "C17.prop.b64_roundtrip", desc+" into a variable holding an earlier value")
 		c.Count("b64/encode/" + strings.SplitN(desc, " ", 2)[0])
 	}
 	enc([]byte{}, "len0")
@@ -664,8 +665,17 @@ func genC17Limits(c *Ctx, g *c17Gen) {
 			c.Run("C17.build", Args(v, f.typ, "0", "", f.sender, rm, ""), "C17.build", "", "build "+v+" room shape")
 			c.Count("receive/shape")
 		}
-		long, longcp := rep("a", 256), rep("é", 256)
-		for _, combo := range [][4]string{{long, "", "", ""}, {long, longcp, "", ""}, {long, "", longcp, ""}, {long, "", "", longcp}, {"", long, longcp, ""}, {"", "", long, longcp}, {longcp, "", "", long}, {"", longcp, "", long}, {long, long, long, long}} {
+		// every combination of the four limited fields being within the limits, over the byte limit
+		// only, or over the code-point limit (ASCII / multi-byte): the class is decided by the worst
+		// field, whatever order the checks are made in
+		long, longcp, bytesOnly := rep("a", 256), rep("é", 256), rep("é", 130)
+		vals := []string{"", bytesOnly, long, longcp}
+		full := c.Thorough() || v == "1" || v == "10" || v == "12" || v == "org.matrix.msc4014"
+		for ci := 1; ci < 256; ci++ {
+			combo := [4]string{vals[ci&3], vals[(ci>>2)&3], vals[(ci>>4)&3], vals[(ci>>6)&3]}
+			if !full && c.Rng.Intn(4) != 0 {
+				continue
+			}
 			f := base
 			if combo[0] != "" {
 				f.typ = combo[0]
@@ -681,12 +691,12 @@ func genC17Limits(c *Ctx, g *c17Gen) {
 				f.room = "!" + combo[3] + ":x"
 			}
 			j, _ := c17EventJSON(f)
-			c.Run("C17.receive", [][]byte{B(v), j}, "C17.receive", "", "receive "+v+" combination")
+			c.Run("C17.receive", [][]byte{B(v), j}, "C17.receive", "C17.prop.receive", "receive "+v+" combination")
 			hasSK, sk := "0", ""
 			if f.sk != nil {
 				hasSK, sk = "1", *f.sk
 			}
-			c.Run("C17.build", Args(v, f.typ, hasSK, sk, f.sender, f.room, ""), "C17.build", "", "build "+v+" combination")
+			c.Run("C17.build", Args(v, f.typ, hasSK, sk, f.sender, f.room, ""), "C17.build", "C17.prop.build", "build "+v+" combination")
 			c.Count("receive/combination")
 		}
 		// create events (v12: no room ID allowed on build, none needed on receipt)
